@@ -61,8 +61,16 @@ def build_harness(race=False, tags="verif"):
     os.makedirs(out, exist_ok=True)
     cmd = ["go", "build", "-tags", tags] + (["-race"] if race else []) + ["-o", out + "/", "./cmd/..."]
     p = subprocess.run(cmd, cwd=HARNESS, env=goenv(), capture_output=True, text=True)
+    if p.returncode != 0 and tags:
+        # A hook may have stopped compiling after a refactoring of the repository:
+        # fall back to the hook-free build (checks that need a hook say so themselves).
+        first = p.stdout + p.stderr
+        cmd = ["go", "build"] + (["-race"] if race else []) + ["-o", out + "/", "./cmd/..."]
+        p = subprocess.run(cmd, cwd=HARNESS, env=goenv(), capture_output=True, text=True)
+        if p.returncode == 0:
+            log("NOTE: building with -tags %s failed, continuing without hooks:\n%s" % (tags, first[-600:]))
     if p.returncode != 0:
-        raise Inconclusive("go build failed (a hook or the repository does not compile):\n" + p.stdout + p.stderr)
+        raise Inconclusive("go build failed (the repository or the harness does not compile):\n" + p.stdout + p.stderr)
     return out
 
 
